@@ -266,9 +266,18 @@ pub fn gen_cmd_world(rng: &mut Rng, first_party_in_registry: bool) -> CmdWorld {
                 p.name.clone(),
                 PackagePolicyEntry::Unversioned(PolicyEntry {
                     audit_as_crates_io: None,
-                    criteria: if rng.chance(1, 2) { Some(gen::gen_crit_list(rng, &crits, false)) } else { None },
-                    dev_criteria: if rng.chance(1, 3) { Some(gen::gen_crit_list(rng, &crits, false)) } else { None },
-                    dependency_criteria: CriteriaMap::new(),
+                    // an explicitly empty list ("nothing is required") is not the same as an absent one
+                    criteria: if rng.chance(1, 2) { Some(if rng.chance(1, 5) { vec![] } else { gen::gen_crit_list(rng, &crits, false) }) } else { None },
+                    dev_criteria: if rng.chance(1, 3) { Some(if rng.chance(1, 3) { vec![] } else { gen::gen_crit_list(rng, &crits, false) }) } else { None },
+                    dependency_criteria: {
+                        let mut m = CriteriaMap::new();
+                        for (d, _) in p.deps.iter() {
+                            if rng.chance(1, 6) {
+                                m.insert(gen::sp(graph.pkgs[*d].name.clone()), if rng.chance(1, 3) { vec![] } else { gen::gen_crit_list(rng, &crits, false) });
+                            }
+                        }
+                        m
+                    },
                     notes: None,
                 }),
             );
@@ -402,7 +411,45 @@ pub fn setup_project(w: &CmdWorld) -> Project {
         w.audits.clone(),
         ImportsFile { unpublished: SortedMap::new(), publisher: SortedMap::new(), audits: w.config.imports.keys().map(|k| (k.clone(), AuditsFile::default())).collect() },
     );
-    let files = store.mock_commit();
+    let mut files = store.mock_commit();
+    // The initial files come from the serialiser under test.  Explicitly empty policy lists
+    // (`criteria = []` means "nothing required", unlike an absent key) are re-inserted by hand if
+    // the serialiser lost them, so that the project on disk is the one that was generated.
+    if let Some(text) = files.get_mut("config.toml") {
+        for (name, version, e) in w.config.policy.iter() {
+            {
+                if version.is_some() || e.audit_as_crates_io.is_some() {
+                    continue;
+                }
+                let header = format!("[policy.{name}]\n");
+                let Some(at) = text.find(&header) else { continue };
+                let body_at = at + header.len();
+                let body_end = text[body_at..].find("\n[").map(|k| body_at + k + 1).unwrap_or(text.len());
+                let body = text[body_at..body_end].to_owned();
+                let has = |key: &str| body.lines().any(|l| l.starts_with(key));
+                let mut insert_at = body_at;
+                if matches!(&e.criteria, Some(v) if v.is_empty()) && !has("criteria = ") {
+                    text.insert_str(insert_at, "criteria = []\n");
+                }
+                if e.criteria.is_some() {
+                    // skip past the criteria line (possibly a wrapped array)
+                    let rest = &text[insert_at..];
+                    let mut off = 0;
+                    for l in rest.split_inclusive('\n') {
+                        off += l.len();
+                        if l.starts_with("criteria = ") && (l.trim_end().ends_with(']') || l.trim_end().ends_with('"')) || l.trim_end() == "]" {
+                            break;
+                        }
+                    }
+                    insert_at += off;
+                }
+                let body_now = text[body_at..].to_owned();
+                if matches!(&e.dev_criteria, Some(v) if v.is_empty()) && !body_now.lines().take_while(|l| !l.starts_with('[')).any(|l| l.starts_with("dev-criteria = ")) {
+                    text.insert_str(insert_at, "dev-criteria = []\n");
+                }
+            }
+        }
+    }
     let root = std::env::var("VERIF_WORK").map(PathBuf::from).unwrap_or_else(|_| std::env::temp_dir());
     fs::create_dir_all(&root).unwrap();
     let dir = tempfile::Builder::new().prefix("vetcase").tempdir_in(root).unwrap();
@@ -669,8 +716,12 @@ pub fn exec_history(r: &mut Report, rng: &mut Rng, idx: u64, mut w: CmdWorld, p:
                     r.oracle_checked += 1;
                     if o2 == Outcome::Ok && again != after {
                         let which: Vec<&str> = ["audits.toml", "config.toml", "imports.lock"].iter().zip(after.iter().zip(&again)).filter(|(_, (a, b))| a != b).map(|(n, _)| *n).collect();
-                        let sig = format!("C13/cmd/{}-twice-changes-{}", cmd_s.replace("--", "").replace(' ', "-"), which.join("+"));
-                        r.fail("oracle", &sig, format!("second `{cmd_s}` changed {which:?}\n--- imports.lock after first\n{}\n--- after second\n{}\n--- config after first\n{}\n--- after second\n{}", after[2], again[2], after[1], again[1]), &case);
+                        // one failure per file that changed, so that a run changing two files is not
+                        // a different signature from two runs changing one each
+                        for f in &which {
+                            let sig = format!("C13/cmd/{}-twice-changes-{}", cmd_s.replace("--", "").replace(' ', "-"), f);
+                            r.fail("oracle", &sig, format!("second `{cmd_s}` changed {which:?}\n--- imports.lock after first\n{}\n--- after second\n{}\n--- config after first\n{}\n--- after second\n{}", after[2], again[2], after[1], again[1]), &case);
+                        }
                     }
                     if locked && before2 != after {
                         // a locked check must not change the meaning; it may not even reformat files it wrote
